@@ -10,9 +10,11 @@
      variables "__const_subj_<c>" / "__const_obj_<c>" are separate constructors of [key] (HashJoin.v), so
      a rule variable can never collide with them;
    - quoted-triple terms (Term::QuotedTriple) are outside the model;
-   - a filter compares a variable with an integer constant (six operators) or two variables with
-     = / != (the only variable-variable operators evaluate_filters implements). The numeric value of
-     an id (its string parsed as f64, 0.0 if it does not parse) is the parameter [nv : N -> Z]. *)
+   - a filter compares a variable with an integer constant or with another variable (six operators).
+     The numeric value of an id (its string parsed as f64, 0.0 if it does not parse) is the parameter
+     [nv : N -> Z].  evaluate_filters implements only = and != between two variables (on ids) and lets
+     every other variable-variable comparison pass: the model does the same, the Spec compares the
+     numeric values (class known_C05_varcmp, Classes.v). *)
 Require Export List NArith ZArith Bool Lia.
 Export ListNotations.
 Open Scope N_scope.
@@ -32,8 +34,7 @@ Definition f_o (f : fact) : N := snd f.
 Inductive cmp := Gt | Lt | Ge | Le | Eq | Ne.
 Inductive fcond :=
 | FNum (x : name) (op : cmp) (z : Z)      (* FilterCondition{variable:x, operator:op, value:"<z>"} *)
-| FVarEq (x y : name)                      (* operator "=",  value = name of a variable *)
-| FVarNe (x y : name).                     (* operator "!=", value = name of a variable *)
+| FVar (x : name) (op : cmp) (y : name).   (* FilterCondition{variable:x, operator:op, value: name of variable y} *)
 
 Record rule := Rule {
   prem : list atom;       (* premise *)
@@ -58,7 +59,7 @@ Definition term_vars (t : term) : list name := match t with V x => [x] | C _ => 
 Definition atom_vars (a : atom) : list name := term_vars (a_s a) ++ term_vars (a_p a) ++ term_vars (a_o a).
 Definition atoms_vars (l : list atom) : list name := flat_map atom_vars l.
 Definition filter_vars (f : fcond) : list name :=
-  match f with FNum x _ _ => [x] | FVarEq x y => [x; y] | FVarNe x y => [x; y] end.
+  match f with FNum x _ _ => [x] | FVar x _ y => [x; y] end.
 Definition nmem (x : name) (l : list name) : bool := existsb (N.eqb x) l.
 
 (* A rule is safe when it has at least one premise and every variable of its conclusions, filters
